@@ -36,6 +36,7 @@ type vfC11Client struct {
 	CD      bool
 	Wire    bool
 	EDNS    bool
+	DO      bool
 	Healthy bool // the name's authority behaves
 }
 
@@ -59,7 +60,7 @@ func vfC11Gen(rt *rapid.T) *vfC11Case {
 		b := rapid.SampledFrom(vfC11Behaviours).Draw(rt, "behaviour")
 		c.Behave[label] = b
 		apex := label + ".test."
-		specs = append(specs, vfworld.ZoneSpec{Apex: apex, Servers: rapid.SampledFrom([]int{1, 2}).Draw(rt, "servers"), Owners: map[string][]uint16{"a." + apex: {dns.TypeA}, "b." + apex: {dns.TypeA}}})
+		specs = append(specs, vfworld.ZoneSpec{Apex: apex, Signed: rapid.Bool().Draw(rt, "signed"), Servers: rapid.SampledFrom([]int{1, 2}).Draw(rt, "servers"), Owners: map[string][]uint16{"a." + apex: {dns.TypeA}, "b." + apex: {dns.TypeA}}})
 		names = append(names, "a."+apex, "a."+apex, "b."+apex, "nx."+apex)
 		for _, n := range []string{"a." + apex, "b." + apex, "nx." + apex} {
 			healthy[n] = b == "ok"
@@ -101,6 +102,7 @@ func vfC11Gen(rt *rapid.T) *vfC11Case {
 			cl.Queued = c.Timeout / 2
 		}
 		cl.Healthy = healthy[cl.Name]
+		cl.DO = cl.EDNS && rapid.Bool().Draw(rt, "do")
 		if rapid.IntRange(0, 2).Draw(rt, "spelling") == 0 {
 			// the same question in another client's own 0x20 spelling: the lookup is shared, the reply is not
 			b := []byte(cl.Name)
@@ -184,7 +186,7 @@ func vfC11Run(t *testing.T, dir string, c *vfC11Case) (violation string, trace [
 		for i, cl := range c.Clients {
 			go func(i int, cl vfC11Client) {
 				time.Sleep(cl.Offset)
-				q := &vfgen.QuerySpec{ID: uint16(1000 + i), Name: cl.Name, Qtype: dns.TypeA, Qclass: dns.ClassINET, RD: true, CD: cl.CD, EDNS: cl.EDNS, UDPSize: 1232}
+				q := &vfgen.QuerySpec{ID: uint16(1000 + i), Name: cl.Name, Qtype: dns.TypeA, Qclass: dns.ClassINET, RD: true, CD: cl.CD, EDNS: cl.EDNS, DO: cl.DO, UDPSize: 1232}
 				raw := q.Pack()
 				local, remote := vfAddrs("udp", net.IPv4(203, 0, 113, byte(10+i)), 4000+i)
 				d := vfC11Done{I: i, Called: since()}
@@ -299,6 +301,36 @@ func vfC11Run(t *testing.T, dir string, c *vfC11Case) (violation string, trace [
 				}
 				if m.Rcode != want {
 					fail("client %d asked the healthy name %s with %s of budget left and got %s; other clients' expiry or refusal must not fail it", d.I, cl.Name, budget, dns.RcodeToString[m.Rcode])
+				}
+				// ... and with its own reply: the published records, shaped for this client and nobody else (signatures
+				// for a client that set DO, none for one that did not - however the clients it shared the lookup with asked)
+				if m.Rcode == dns.RcodeSuccess && want == dns.RcodeSuccess && !m.Truncated {
+					_, required := vfExpectedAnswer(g, dns.TypeA)
+					have := map[string]bool{}
+					sigs := 0
+					for _, rr := range m.Answer {
+						if rr.Header().Rrtype == dns.TypeRRSIG {
+							sigs++
+							continue
+						}
+						c2 := dns.Copy(rr)
+						c2.Header().Name = strings.ToLower(c2.Header().Name)
+						have[vfNormRR(c2)] = true
+					}
+					for _, k := range required {
+						if !have[k] {
+							fail("client %d asked the healthy name %s (do=%v) and its NOERROR reply lacks the published %s (answer section: %d records) - shaped by another client's reply path?", d.I, cl.Name, cl.DO, k, len(m.Answer))
+						}
+					}
+					if g.Zone != nil && g.Zone.Signed {
+						stats["signed-answer-shaped"]++
+						if cl.DO && sigs == 0 {
+							fail("client %d asked %s with DO set and its reply carries the records without their signatures (another client of the shared lookup asked without DO)", d.I, cl.Name)
+						}
+						if !cl.DO && sigs > 0 {
+							fail("client %d asked %s without DO and its reply carries %d signature record(s)", d.I, cl.Name, sigs)
+						}
+					}
 				}
 			}
 			if m.Rcode == dns.RcodeServerFailure {
